@@ -6,288 +6,522 @@ operator list and the subset that scales a memory index, the base of `scale = 2 
 codes, register prefix sets, lane digits, predication letters, the sp/zr alias regexes and the prefix
 forced on them, prefetch keywords, character sets of mnemonic/identifier, the number of operand slots,
 and the line-number base of `parse_file`.
+
+How it reads (semantically, not by spelling; helpers in `astutil_G4.py`; nothing of OSACA is imported or run):
+
+* The grammar: `construct_parser` is *symbolically executed* (`astutil_G4.Interp`): every pyparsing constructor,
+  `+ | ^`, `.setResultsName()` becomes a node of an expression tree, names are looked up in the environment.
+  The plug-in then navigates the tree from the attributes the parser really uses (`self.instruction_parser`,
+  `self.comment`, `self.register`, `self.condition`) by structure and by results names -- the keys that
+  `process_*` read.  Names of local variables, hoisted/split/inlined sub-expressions, constants bound to a
+  local, class or module name, raw/plain/concatenated strings, `pp.Opt`/`one_of`/`set_results_name`/`elem("n")`
+  spellings, alternatives built by a loop, comprehension, helper or `reduce` do not show.  The order of
+  alternatives and of sequence members, every literal, character set, `exact=`/`caseless=` flag and results
+  name do show.
+* The post-processing functions: constants are evaluated (`FnEnv.const`: arithmetic, hoisted locals, class
+  attributes), the tests that force a prefix on sp/zr are read through loops over constant tables, and variables
+  are identified by the dictionary key they were read from, not by their name.
+* `parse_file`: loop or comprehension (`astutil_G4.read_parse_file`).
+
+Still insisted on (fails loudly otherwise): the six register alternatives in their order, the shapes of the two
+operand alternatives, the three prefetch groups type/target/policy, single `**`, `<<`, `range(a, b + c)`.
 """
 import ast
+import os
 import re as _re
+import sys
 
-from translate import TranslateError, generator, parse, find_func, txt, txt_list, HEADER
+
+
+def _load_util():
+    """astutil_G4.py next to this file, loaded by path (sys.path is left alone)"""
+    import importlib.util
+    if "astutil_G4" in sys.modules:
+        return sys.modules["astutil_G4"]
+    spec = importlib.util.spec_from_file_location(
+        "astutil_G4", os.path.join(os.path.dirname(os.path.abspath(__file__)), "astutil_G4.py"))
+    mod = importlib.util.module_from_spec(spec)
+    sys.modules["astutil_G4"] = mod
+    spec.loader.exec_module(mod)
+    return mod
+
+
+U = _load_util()
+expect, only, unwrap = U.expect, U.only, U.unwrap
+from translate import TranslateError, generator, parse, txt, txt_list, HEADER  # noqa: E402
 
 SRC = "osaca/parser/parser_AArch64.py"
+BASE = "osaca/parser/base_parser.py"
+
+NO_GROUP = lambda n: n.kind != "Group"  # noqa: E731
 
 
-def _assign(fn, name):
-    """value of the (last) simple assignment `name = ...` or `self.name = ...` inside fn"""
-    found = None
-    for plain in (True, False):
-        for node in ast.walk(fn):
-            if isinstance(node, ast.Assign) and len(node.targets) == 1:
-                tg = node.targets[0]
-                if plain and isinstance(tg, ast.Name) and tg.id == name:
-                    found = node.value
-                if not plain and isinstance(tg, ast.Attribute) and tg.attr == name \
-                        and isinstance(tg.value, ast.Name) and tg.value.id == "self":
-                    found = node.value
-        if found is not None:
-            break
-    if found is None:
-        raise TranslateError("construct: assignment to %r not found" % name)
-    return found
+def _alias_regex(pat, what):
+    """`(?P<prefix>[a-zA-Z])?(?P<name>(sp|SP))` read from its parse tree (so `[A-Za-z]`, a missing inner group, a raw
+    string are the same): an optional group `prefix` of one ASCII letter, then a group `name` that matches a finite
+    list of words -> the words in order"""
+    try:
+        import re._parser as sp
+    except ImportError:  # Python < 3.11
+        import sre_parse as sp
+    try:
+        t = sp.parse(pat)
+    except Exception as e:
+        raise TranslateError("%s: regex %r does not parse: %s" % (what, pat, e))
+    bad = TranslateError("%s: unexpected regex %r" % (what, pat))
+    if t.state.flags & ~_re.UNICODE or dict(t.state.groupdict) != {"prefix": 1, "name": 2} or len(t) != 2:
+        raise bad
+
+    def chars(items):
+        out = []
+        for op, av in items:
+            if op == sp.LITERAL:
+                out.append(chr(av))
+            elif op == sp.RANGE and av[1] - av[0] < 64:
+                out += [chr(c) for c in range(av[0], av[1] + 1)]
+            else:
+                raise bad
+        return out
+
+    def words(seq):
+        res = [""]
+        for op, av in seq:
+            if op == sp.LITERAL:
+                alts = [chr(av)]
+            elif op == sp.IN:
+                alts = chars(av)
+            elif op == sp.SUBPATTERN:
+                if av[1] or av[2]:
+                    raise bad
+                alts = words(av[3])
+            elif op == sp.BRANCH:
+                alts = [w for alt in av[1] for w in words(alt)]
+            else:
+                raise bad
+            res = [a + b for a in res for b in alts]
+            if len(res) > 64:
+                raise bad
+        return res
+
+    (op1, av1), (op2, av2) = t[0], t[1]
+    if op1 != sp.MAX_REPEAT or av1[0] != 0 or av1[1] != 1 or len(av1[2]) != 1 or av1[2][0][0] != sp.SUBPATTERN \
+            or av1[2][0][1][0] != 1 or op2 != sp.SUBPATTERN or av2[0] != 2:
+        raise bad
+    pre = av1[2][0][1][3]
+    if len(pre) != 1 or pre[0][0] != sp.IN or sorted(chars(pre[0][1])) != sorted(
+            "abcdefghijklmnopqrstuvwxyzABCDEFGHIJKLMNOPQRSTUVWXYZ"):
+        raise bad
+    names = words([t[1]])
+    if not names or len(set(names)) != len(names) or any(not w.isalpha() for w in names):
+        raise bad
+    return names
 
 
-def _calls(node, attr):
-    """all calls `pp.<attr>(...)` below node, in source order"""
-    out = [n for n in ast.walk(node) if isinstance(n, ast.Call) and isinstance(n.func, ast.Attribute)
-           and n.func.attr == attr]
-    out.sort(key=lambda n: (n.lineno, n.col_offset))
-    return out
-
-
-def _strarg(call, what):
-    if not call.args or not isinstance(call.args[0], ast.Constant) or not isinstance(call.args[0].value, str):
-        raise TranslateError("%s: expected a string literal argument (line %d)" % (what, call.lineno))
-    return call.args[0].value
-
-
-def _caseless(node, what, n_min=1):
-    lits = [_strarg(c, what) for c in _calls(node, "CaselessLiteral")]
-    if len(lits) < n_min:
+def _caseless_alts(node, what, n_min=1):
+    """`CaselessLiteral(a) ^ CaselessLiteral(b) ^ ...` (or a single one) -> [a, b, ...]"""
+    kids = node.kids if node.kind == "Or" else [node]
+    if node.kind not in ("Or", "CaselessLiteral") or any(k.kind != "CaselessLiteral" for k in kids):
+        raise TranslateError("%s is not a `^` chain of CaselessLiteral: %s" % (what, U.show(node)))
+    if len(kids) < n_min:
         raise TranslateError("%s: expected CaselessLiteral alternatives" % what)
+    return [U.strarg(k, what) for k in kids]
+
+
+def _word_sets(node, what):
+    expect(node, "Word" if node.kind != "WordEnd" else "WordEnd", what)
+    if not node.args:
+        raise TranslateError("%s: Word without argument" % what)
+    return U.charclass(node.args[0], what)
+
+
+def _word_extra(node, base, what):
+    names, extra = _word_sets(node, what)
+    if node.kw:
+        raise TranslateError("%s: unexpected keyword arguments %r" % (what, sorted(node.kw)))
+    if names != [base]:
+        raise TranslateError("%s: expected %s + extras, got %r" % (what, base, names))
+    return extra
+
+
+def _number(node, what, n_lits, digits):
+    """Combine(Optional(Literal('-')) [+ Literal(prefix)] + Word(digits)) -> literals"""
+    expect(node, "Combine", what, 1)
+    lits = U.literals(node)
+    words = U.of_kind(node, "Word")
+    if len(lits) != n_lits or lits[0] != "-" or len(words) != 1 or _word_sets(words[0], what) != ([digits], ""):
+        raise TranslateError("%s: expected Optional('-')%s + Word(%s)" % (what, " + Literal(prefix)" if n_lits == 2 else "", digits))
+    seq = expect(node.kids[0], "And", what)
+    first = seq.kids[0]
+    if first.kind != "Optional" or U.literals(first) != ["-"]:
+        raise TranslateError("%s: the sign is not optional" % what)
     return lits
 
 
-def _is_or_chain(node):
-    """expr is `a ^ b ^ c` possibly followed by .setResultsName(...)"""
-    while isinstance(node, ast.Call) and isinstance(node.func, ast.Attribute) and node.func.attr == "setResultsName":
-        node = node.func.value
-    return isinstance(node, ast.BinOp) and isinstance(node.op, ast.BitXor)
+def read_grammar(it):
+    """navigate the symbolically constructed grammar; returns the dict of values of the Gen file"""
+    A = it.selfattrs
+    g = {}
+    for need in ("instruction_parser", "comment", "register", "condition"):
+        if need not in A or not isinstance(A[need], U.PNode):
+            raise TranslateError("construct_parser: self.%s is not assigned a grammar element" % need)
+    register_id = it.class_attr("register_id")
 
-
-def _charset(node, what):
-    """`pp.alphas + "_."`-like expression -> (names of pp sets, literal extra chars)"""
-    names, extra = [], ""
-    def go(n):
-        nonlocal extra
-        if isinstance(n, ast.BinOp) and isinstance(n.op, ast.Add):
-            go(n.left); go(n.right)
-        elif isinstance(n, ast.Attribute):
-            names.append(n.attr)
-        elif isinstance(n, ast.Constant) and isinstance(n.value, str):
-            extra += n.value
+    # ---- instruction_parser = mnemonic + Optional(first("operand1")) + Optional(Suppress(",")) + ... + Optional(comment)
+    ip = expect(A["instruction_parser"], "And", "instruction_parser")
+    mn = ip.kids[0]
+    if mn.name != "mnemonic":
+        raise TranslateError("instruction_parser does not start with the mnemonic")
+    g["mn_extra"] = _word_extra(mn, "alphanums", "mnemonic")
+    slots = []
+    for k in ip.kids[1:]:
+        inner = unwrap(k, "Optional", "instruction_parser member")
+        if inner.name is not None and str(inner.name).startswith("operand"):
+            slots.append((inner.name, inner))
+        elif inner.kind == "Suppress" and U.literals(inner) == [","] and len(list(U.walk(inner))) == 2:
+            pass
+        elif inner.same(A["comment"]):
+            pass
         else:
-            raise TranslateError("%s: unexpected character-set expression" % what)
-    go(node)
-    return names, extra
+            raise TranslateError("instruction_parser: unexpected member %s" % U.show(inner))
+    names = [s for s, _ in slots]
+    if not slots or names != ["operand%d" % (i + 1) for i in range(len(slots))]:
+        raise TranslateError("instruction_parser: unexpected operand slots %r" % names)
+    first, rest = slots[0][1], [s for _, s in slots[1:]]
+    if any(not r.same(rest[0]) for r in rest) or (rest and rest[0].same(first)):
+        raise TranslateError("instruction_parser: operand slots 2.. do not share one grammar distinct from slot 1")
+    g["n_slots"] = len(slots)
 
+    # ---- operand alternatives
+    #  first = Group((prfop + word_end) | (register ^ (prfop | immediate) ^ memory ^ arith_immediate ^ identifier))
+    #  rest  = Group((condition + word_end) | (register ^ condition ^ immediate ^ memory ^ arith_immediate) | identifier)
+    try:
+        mf = expect(unwrap(first, "Group", "operand_first"), "MatchFirst", "operand_first", 2)
+        prf, we = expect(mf.kids[0], "And", "operand_first[0]", 2).kids
+        reg, pi, mem, arith, ident = expect(mf.kids[1], "Or", "operand_first[1]", 5).kids
+        prf2, imm = expect(pi, "MatchFirst", "operand_first prfop|immediate", 2).kids
+        if rest:
+            mr = expect(unwrap(rest[0], "Group", "operand_rest"), "MatchFirst", "operand_rest", 3)
+            cond, we2 = expect(mr.kids[0], "And", "operand_rest[0]", 2).kids
+            same = [(a, b) for a, b in zip(expect(mr.kids[1], "Or", "operand_rest[1]", 5).kids,
+                                           (reg, cond, imm, mem, arith))] + [(mr.kids[2], ident), (we2, we)]
+        else:
+            raise TranslateError("no operand_rest slot")
+        same += [(prf2, prf), (reg, A["register"]), (cond, A["condition"])]
+        for a, b in same:
+            if not (a.same(b) and a.name == b.name):
+                raise TranslateError("%s is not %s" % (U.show(a), U.show(b)))
+    except TranslateError as e:
+        raise TranslateError("operand alternatives changed: %s" % e)
+    for node, want, what in ((reg, register_id, "register"), (mem, it.class_attr("memory_id"), "memory"),
+                             (imm, it.class_attr("immediate_id"), "immediate"),
+                             (arith, it.class_attr("immediate_id"), "arith_immediate"),
+                             (ident, it.class_attr("identifier"), "identifier"),
+                             (prf, it.class_attr("prefetch"), "prefetch_op"),
+                             (cond, it.class_attr("condition_id"), "condition")):
+        if node.name != want:
+            raise TranslateError("operand alternatives changed: %s has results name %r, expected %r" % (what, node.name, want))
+    if we.kind != "WordEnd":
+        raise TranslateError("word_end: expected pp.WordEnd(chars)")
+    g["we_extra"] = _word_extra(we, "alphanums", "word_end")
+    g["conds"] = _caseless_alts(cond, "condition", 2)
 
-def _word_arg(call, what):
-    if not call.args:
-        raise TranslateError("%s: Word without argument" % what)
-    return _charset(call.args[0], what)
+    # ---- prefetch_op = Group(Group(type alts)("type") + Group(..)("target") + Group(..)("policy"))
+    pseq = expect(unwrap(prf, "Group", "prefetch_op"), "And", "prefetch_op", 3)
+    if [k.name for k in pseq.kids] != ["type", "target", "policy"]:
+        raise TranslateError("prefetch_op: expected three keyword groups type/target/policy, got %r" % [k.name for k in pseq.kids])
+    g["pf_lists"] = [_caseless_alts(unwrap(k, "Group", "prefetch_op group"), "prefetch_op") for k in pseq.kids]
 
+    # ---- register = Group((sp | zr | vector | scalar | predicate | register_list) + Optional("," shift_op [immediate]))
+    rseq = expect(unwrap(reg, "Group", "register"), "And", "register", 2)
+    alts = expect(rseq.kids[0], "MatchFirst", "register alternatives")
+    kinds = []
+    for a in alts.kids:
+        pre = [x for x in ([a] if a.name == "prefix" else []) + U.named(a, "prefix", NO_GROUP)]
+        if a.kind == "Regex":
+            kinds.append("alias")
+        elif a.kind == "And" and a.kids and a.kids[0].kind == "Literal" and U.named(a, "list") and U.named(a, "range"):
+            kinds.append("register_list")
+        elif a.kind == "And" and pre and pre[0].kind == "oneOf":
+            kinds.append("vector")
+        elif a.kind == "And" and pre and pre[0].kind == "Word":
+            kinds.append("scalar")
+        elif a.kind == "And" and pre and pre[0].kind == "CaselessLiteral":
+            kinds.append("predicate")
+        else:
+            kinds.append("?" + a.kind)
+    want = ["alias", "alias", "vector", "scalar", "predicate", "register_list"]
+    if kinds != want:
+        raise TranslateError("register: alternatives %r, model expects %r (sp, zr aliases first)" % (kinds, want))
+    a_sp, a_zr, vector, scalar, pred, _rl = alts.kids
+    for self_name, node in (("vector", vector), ("predicate", pred)):
+        if self_name in A and not A[self_name].same(node):
+            raise TranslateError("self.%s is not the %s alternative of register" % (self_name, self_name))
+    aliases = []
+    for name, node in (("alias_r31_sp", a_sp), ("alias_r31_zr", a_zr)):
+        pat = U.strarg(node, name)
+        if node.kw:
+            raise TranslateError("%s: Regex flags are not modelled" % name)
+        aliases.append(_alias_regex(pat, name))
+    g["aliases"] = aliases
+    # shift_op, as used in register and in arith_immediate
+    so = only(U.named(rseq.kids[1], "shift_op", NO_GROUP), "register: shift_op")
+    g["shift_ops"] = _caseless_alts(so, "shift_op", 2)
+    so2 = only(U.named(arith, "shift_op", NO_GROUP), "arith_immediate: shift_op")
+    if not so2.same(so):
+        raise TranslateError("arith_immediate uses a different shift_op than register")
+    bi = only(U.named(arith, "base_immediate", NO_GROUP), "arith_immediate: base_immediate")
+    if not bi.same(imm):
+        raise TranslateError("arith_immediate: base_immediate is not the immediate")
 
-@generator("A64Grammar", [SRC, "osaca/parser/base_parser.py"])
-def gen_a64grammar():
-    tree = parse(SRC)
-    cp = find_func(tree, "construct_parser", "ParserAArch64")
-
-    def cstr(name):
-        v = _assign(cp, name)
-        if not (isinstance(v, ast.Constant) and isinstance(v.value, str)):
-            raise TranslateError("%s is not a string literal" % name)
-        return v.value
-
-    comment_sym = cstr("symbol_comment")
-    imm_sym = cstr("symbol_immediate")
-
-    so = _assign(cp, "shift_op")
-    if not _is_or_chain(so):
-        raise TranslateError("shift_op is not a `^` chain of CaselessLiteral")
-    shift_ops = _caseless(so, "shift_op", 2)
-    cond = _assign(cp, "condition")
-    if not _is_or_chain(cond):
-        raise TranslateError("condition is not a `^` chain of CaselessLiteral")
-    conds = _caseless(cond, "condition", 2)
-
-    pf = _assign(cp, "prefetch_op")
-    groups = [c for c in _calls(pf, "Group")]
-    # innermost groups: those whose argument is an or-chain of CaselessLiteral
-    pf_lists = []
-    for g in groups:
-        if g.args and _is_or_chain(g.args[0]):
-            pf_lists.append(_caseless(g.args[0], "prefetch_op"))
-    if len(pf_lists) != 3:
-        raise TranslateError("prefetch_op: expected three keyword groups, got %d" % len(pf_lists))
-
-    scalar = _assign(cp, "scalar")
-    w = _calls(scalar, "Word")
-    if len(w) != 2:
+    # scalar = Word(prefixes, exact=1)("prefix") + Word(nums)("name")
+    if len(scalar.kids) != 2 or [k.kind for k in scalar.kids] != ["Word", "Word"]:
         raise TranslateError("scalar: expected Word(prefix chars, exact=1) + Word(nums)")
-    scalar_prefixes = _strarg(w[0], "scalar prefix")
-    if not any(k.arg == "exact" and isinstance(k.value, ast.Constant) and k.value.value == 1 for k in w[0].keywords):
+    sp_, sn_ = scalar.kids
+    if not (sp_.args and isinstance(sp_.args[0], str)):
+        raise TranslateError("scalar prefix: expected a string literal argument")
+    g["scalar_prefixes"] = sp_.args[0]
+    if sp_.kw != {"exact": 1}:
         raise TranslateError("scalar prefix: exact=1 expected")
-    if _word_arg(w[1], "scalar name") != (["nums"], ""):
+    if _word_sets(sn_, "scalar name") != (["nums"], "") or sn_.kw:
         raise TranslateError("scalar name: Word(nums) expected")
 
-    vector = _assign(cp, "vector")
-    oo = _calls(vector, "oneOf")
-    if len(oo) != 1:
-        raise TranslateError("vector: expected one oneOf(prefixes)")
-    vec_prefixes = _strarg(oo[0], "vector prefixes").split()
-    if not any(k.arg == "caseless" and isinstance(k.value, ast.Constant) and k.value.value is True for k in oo[0].keywords):
-        raise TranslateError("vector prefixes: caseless=True expected")
-    vw = _calls(vector, "Word")
-    lanes = [c for c in vw if c.args and isinstance(c.args[0], ast.Constant)]
-    if len(lanes) != 1:
-        raise TranslateError("vector: expected one Word(<lane digits>)")
-    lane_chars = _strarg(lanes[0], "lane digits")
+    def lanes_of(node, what):
+        ln = [strip for strip in (U.strip_kinds(x, ("Optional",)) for x in U.named(node, "lanes", NO_GROUP))]
+        lits = [x for x in U.of_kind(node, "Word", NO_GROUP) if x.args and isinstance(x.args[0], str)]
+        if len(lits) != 1 or len(ln) != 1 or ln[0] is not lits[0]:
+            raise TranslateError("%s: expected one Word(<lane digits>) named lanes" % what)
+        return lits[0].args[0]
 
-    pred = _assign(cp, "predicate")
-    po = _calls(pred, "oneOf")
-    if len(po) != 1:
-        raise TranslateError("predicate: expected one oneOf(predication letters)")
-    pred_chars = _strarg(po[0], "predication").split()
-    pcl = _caseless(pred, "predicate prefix")
-    if len(pcl) != 1:
-        raise TranslateError("predicate: expected one CaselessLiteral prefix")
-    plits = sorted(_strarg(c, "predicate literal") for c in _calls(pred, "Literal"))
+    # vector = oneOf(prefixes, caseless=True)("prefix") + Word(nums)("name") + Optional("." + Optional(Word(lanes))("lanes") + shape) + Optional(index)
+    oo = only(U.of_kind(vector, "oneOf", NO_GROUP), "vector: oneOf(prefixes)")
+    g["vec_prefixes"] = list(oo.args[0])
+    if oo.kw.get("caseless") is not True or oo.name != "prefix":
+        raise TranslateError("vector prefixes: caseless=True expected")
+    g["lane_chars"] = lanes_of(vector, "vector")
+    # predicate = CaselessLiteral(p)("prefix") + Word(nums)("name") + Optional(("/" + oneOf(letters)("predication")) | ("." + lanes + shape))
+    po = only(U.of_kind(pred, "oneOf", NO_GROUP), "predicate: oneOf(predication letters)")
+    g["pred_chars"] = list(po.args[0])
+    if po.name != "predication":
+        raise TranslateError("predicate: oneOf is not the predication")
+    pcl = only(U.of_kind(pred, "CaselessLiteral", NO_GROUP), "predicate: CaselessLiteral prefix")
+    g["pred_prefix"] = U.strarg(pcl, "predicate prefix")
+    plits = sorted(U.literals(pred, NO_GROUP))
     if plits != [".", "/"]:
         raise TranslateError("predicate: expected Literal('/') and Literal('.'), got %r" % plits)
-    plw = [c for c in _calls(pred, "Word") if c.args and isinstance(c.args[0], ast.Constant)]
-    if len(plw) != 1 or _strarg(plw[0], "predicate lanes") != lane_chars:
+    if lanes_of(pred, "predicate") != g["lane_chars"]:
         raise TranslateError("predicate: lane digits differ from vector lane digits")
 
-    aliases = []
-    for name in ("alias_r31_sp", "alias_r31_zr"):
-        v = _assign(cp, name)
-        rx = _calls(v, "Regex")
-        if len(rx) != 1:
-            raise TranslateError("%s: expected pp.Regex" % name)
-        pat = _strarg(rx[0], name)
-        m = _re.fullmatch(r"\(\?P<prefix>\[a-zA-Z\]\)\?\(\?P<name>\(([A-Za-z|]+)\)\)", pat)
-        if not m:
-            raise TranslateError("%s: unexpected regex %r" % (name, pat))
-        aliases.append(m.group(1).split("|"))
+    # ---- immediate = Group(Optional(Literal(sym)) + (hex ^ dec ^ float ^ double) | Optional(Literal(sym)) + identifier)
+    imf = expect(unwrap(imm, "Group", "immediate"), "MatchFirst", "immediate", 2)
+    syms = []
+    for alt in imf.kids:
+        expect(alt, "And", "immediate alternative", 2)
+        lit = expect(unwrap(alt.kids[0], "Optional", "immediate symbol"), "Literal", "immediate symbol")
+        syms.append(U.strarg(lit, "immediate symbol"))
+    if len(set(syms)) != 1:
+        raise TranslateError("immediate: different symbols %r in the two alternatives" % syms)
+    g["imm_sym"] = syms[0]
+    if not imf.kids[1].kids[1].same(ident):
+        raise TranslateError("immediate: second alternative is not symbol + identifier")
+    nums = expect(imf.kids[0].kids[1], "Or", "immediate numbers", 4)
+    hexn, decn = nums.kids[0], nums.kids[1]
+    g["hex_prefix"] = _number(hexn, "hex_number", 2, "hexnums")[1]
+    _number(decn, "decimal_number", 1, "nums")
 
-    # register alternatives, in order
-    reg = _assign(cp, "register")
-    order = None
-    for n in ast.walk(reg):
-        if isinstance(n, ast.BinOp) and isinstance(n.op, ast.BitOr):
-            names = []
-            def flat(x):
-                if isinstance(x, ast.BinOp) and isinstance(x.op, ast.BitOr):
-                    flat(x.left); flat(x.right)
-                elif isinstance(x, ast.Name):
-                    names.append(x.id)
-                else:
-                    names.append("?")
-            flat(n)
-            if order is None or len(names) > len(order):
-                order = names
-    want_order = ["alias_r31_sp", "alias_r31_zr", "vector", "scalar", "predicate", "register_list"]
-    if order != want_order:
-        raise TranslateError("register: alternatives %r, model expects %r" % (order, want_order))
+    # ---- comment = Literal(sym) + Group(ZeroOrMore(Word(printables)))(comment_id)
+    cseq = expect(A["comment"], "And", "comment", 2)
+    g["comment_sym"] = U.strarg(expect(cseq.kids[0], "Literal", "comment symbol"), "comment symbol")
 
-    # operand alternatives (shape of the two Or/MatchFirst expressions)
-    def shape(e):
-        if isinstance(e, ast.Call) and isinstance(e.func, ast.Attribute) and e.func.attr == "Group" and e.args:
-            return shape(e.args[0])
-        if isinstance(e, ast.BinOp) and isinstance(e.op, ast.BitXor):
-            return "(" + shape(e.left) + "^" + shape(e.right) + ")"
-        if isinstance(e, ast.BinOp) and isinstance(e.op, ast.BitOr):
-            return "(" + shape(e.left) + "|" + shape(e.right) + ")"
-        if isinstance(e, ast.BinOp) and isinstance(e.op, ast.Add):
-            return "(" + shape(e.left) + "+" + shape(e.right) + ")"
-        if isinstance(e, ast.Name):
-            return e.id
-        return "?"
-    sh_first = shape(_assign(cp, "operand_first"))
-    sh_rest = shape(_assign(cp, "operand_rest"))
-    want_first = "((prefetch_op+word_end)|((((register^(prefetch_op|immediate))^memory)^arith_immediate)^identifier))"
-    want_rest = "(((condition+word_end)|((((register^condition)^immediate)^memory)^arith_immediate))|identifier)"
-    if sh_first != want_first or sh_rest != want_rest:
-        raise TranslateError("operand alternatives changed: %s / %s" % (sh_first, sh_rest))
-    we = _calls(_assign(cp, "word_end"), "WordEnd")
-    if len(we) != 1:
-        raise TranslateError("word_end: expected pp.WordEnd(chars)")
-    we_sets, we_extra = _word_arg(we[0], "word_end")
-    if we_sets != ["alphanums"]:
-        raise TranslateError("word_end: expected alphanums + extras")
-    imm_shape = shape(_assign(cp, "immediate").func.value if isinstance(_assign(cp, "immediate"), ast.Call) else _assign(cp, "immediate"))
-
-    ip = _assign(cp, "instruction_parser")
-    slots = []
-    for c in ast.walk(ip):
-        if isinstance(c, ast.Call) and isinstance(c.func, ast.Attribute) and c.func.attr == "setResultsName" \
-                and c.args and isinstance(c.args[0], ast.Constant) and str(c.args[0].value).startswith("operand"):
-            who = c.func.value.id if isinstance(c.func.value, ast.Name) else "?"
-            slots.append((c.args[0].value, who))
-    slots.sort()
-    if not slots or slots[0] != ("operand1", "operand_first") or any(w != "operand_rest" for _, w in slots[1:]) \
-            or [s for s, _ in slots] != ["operand%d" % (i + 1) for i in range(len(slots))]:
-        raise TranslateError("instruction_parser: unexpected operand slots %r" % slots)
-    n_slots = len(slots)
-
-    mn = _assign(cp, "mnemonic")
-    mw = _calls(mn, "Word")
-    if len(mw) != 1:
-        raise TranslateError("mnemonic: expected one Word")
-    mn_sets, mn_extra = _word_arg(mw[0], "mnemonic")
-    if mn_sets != ["alphanums"]:
-        raise TranslateError("mnemonic: expected alphanums + extras")
-    first = _word_arg(_calls(_assign(cp, "first"), "Word")[0], "identifier first")
-    rest = _word_arg(_calls(_assign(cp, "rest"), "Word")[0], "identifier rest")
-    if first[0] != ["alphas"] or rest[0] != ["alphanums"]:
+    # ---- identifier = Group(Optional(relocation)("relocation") + Combine(first + Optional(rest))("name") + Optional("+" offset))
+    iseq = expect(unwrap(ident, "Group", "identifier"), "And", "identifier")
+    reloc = only(U.named(iseq, "relocation", NO_GROUP), "identifier: relocation")
+    g["reloc_extra"] = _word_extra(only(U.of_kind(reloc, "Word"), "relocation: Word"), "alphanums", "relocation")
+    nm = only([k for k in iseq.kids if k.name == "name"], "identifier: name")
+    words = U.of_kind(nm, "Word")
+    if nm.kind != "Combine" or len(words) != 2 or words[0].kw != {"exact": 1} or words[1].kw:
+        raise TranslateError("identifier: expected Combine(first + Optional(rest))")
+    ff, fr = _word_sets(words[0], "identifier first"), _word_sets(words[1], "identifier rest")
+    if ff[0] != ["alphas"] or fr[0] != ["alphanums"]:
         raise TranslateError("identifier character sets changed")
-    reloc = _assign(cp, "relocation")
-    rw = _word_arg(_calls(reloc, "Word")[0], "relocation")
-    if rw[0] != ["alphanums"]:
-        raise TranslateError("relocation character set changed")
-    hexn = _assign(cp, "hex_number")
-    hl = [_strarg(c, "hex literal") for c in _calls(hexn, "Literal")]
-    if len(hl) != 2 or hl[0] != "-":
-        raise TranslateError("hex_number: expected Optional('-') + Literal(prefix)")
-    hex_prefix = hl[1]
-    decn = _assign(cp, "decimal_number")
-    dl = [_strarg(c, "dec literal") for c in _calls(decn, "Literal")]
-    if dl != ["-"]:
-        raise TranslateError("decimal_number: expected Optional('-') + Word(nums)")
+    g["first_extra"], g["rest_extra"] = ff[1], fr[1]
+    return g
 
-    # memory post-processing
-    pm = find_func(tree, "process_memory_address", "ParserAArch64")
-    valid = None
-    for node in ast.walk(pm):
-        if isinstance(node, ast.List) and node.elts and all(
-            isinstance(e, ast.Constant) and isinstance(e.value, str) for e in node.elts
-        ):
-            valid = [e.value for e in node.elts]
-    if valid is None:
-        raise TranslateError("process_memory_address: list of scaling shift ops not found")
+
+def _role(fenv, name, param):
+    """the constant key K with which local `name` was read from the parameter: `name = param.get(K, ...)` / param[K]"""
+    keys = set()
+    for v in fenv.assigns.get(name, []):
+        if v is None:
+            continue
+        if U.is_call(v, "get") and isinstance(v.func.value, ast.Name) and v.func.value.id == param and v.args:
+            ok, k = fenv.try_const(v.args[0])
+            if ok and isinstance(k, str):
+                keys.add(k)
+        elif isinstance(v, ast.Subscript) and isinstance(v.value, ast.Name) and v.value.id == param:
+            ok, k = fenv.try_const(v.slice)
+            if ok and isinstance(k, str):
+                keys.add(k)
+    return only(sorted(keys), "process_memory_address: key from which %r is read" % name) if keys else None
+
+
+def _unrolled_ifs(stmts, fenv, bindings, aliases, out):
+    """every `if` statement with the bindings of the enclosing loops over constant tables / tuples of names"""
+    for st in stmts:
+        if isinstance(st, ast.For) and isinstance(st.target, ast.Name) and not st.orelse:
+            it = fenv.resolve(st.iter)
+            if isinstance(it, (ast.Tuple, ast.List)) and it.elts and all(isinstance(e, ast.Name) for e in it.elts):
+                for e in it.elts:
+                    a2 = dict(aliases)
+                    a2[st.target.id] = aliases.get(e.id, e.id)
+                    _unrolled_ifs(st.body, fenv, bindings, a2, out)
+                continue
+            ok, vals = fenv.try_const(st.iter, bindings)
+            if ok and isinstance(vals, (list, tuple, set, frozenset, range)):
+                for v in (sorted(vals) if isinstance(vals, (set, frozenset)) else vals):
+                    b2 = dict(bindings)
+                    b2[st.target.id] = v
+                    _unrolled_ifs(st.body, fenv, b2, aliases, out)
+                continue
+        if isinstance(st, ast.If):
+            out.append((st, dict(bindings), dict(aliases)))
+        for field in ("body", "orelse", "finalbody"):
+            sub = getattr(st, field, None)
+            if sub and isinstance(sub, list) and isinstance(sub[0], ast.stmt):
+                _unrolled_ifs(sub, fenv, bindings, aliases, out)
+        for h in getattr(st, "handlers", []):
+            _unrolled_ifs(h.body, fenv, bindings, aliases, out)
+
+
+def _through(node, fenv, depth=0):
+    """the nodes of an expression, looking through locals that are assigned once (hoisted sub-expressions)"""
+    for n in ast.walk(node):
+        yield n
+        if isinstance(n, ast.Name) and depth < 5:
+            v = fenv.single(n.id)
+            if v is not None:
+                yield from _through(v, fenv, depth + 1)
+
+
+def read_memory(pm, interp):
+    """process_memory_address: scaling shift ops, `scale = b ** int(..)`, default scale, forced alias prefixes, int bases"""
+    fenv = U.FnEnv(pm, interp)
+    if len(pm.args.args) != 2:
+        raise TranslateError("process_memory_address: unexpected parameters")
+    param = pm.args.args[1].arg
+    r = {}
+    # scale = <const> ** int(...)
     pows = [n for n in ast.walk(pm) if isinstance(n, ast.BinOp) and isinstance(n.op, ast.Pow)]
-    if len(pows) != 1 or not isinstance(pows[0].left, ast.Constant) or not isinstance(pows[0].left.value, int):
+    pows = [(n.left, n) for n in pows] + [(n.args[0], n) for n in ast.walk(pm) if U.is_call(n, name="pow") and len(n.args) == 2]
+    if len(pows) != 1:
         raise TranslateError("process_memory_address: `scale = <const> ** int(...)` not found")
-    scale_base = pows[0].left.value
-    default_scale = None
-    for node in ast.walk(pm):
-        if isinstance(node, ast.Assign) and len(node.targets) == 1 and isinstance(node.targets[0], ast.Name) \
-                and node.targets[0].id == "scale" and isinstance(node.value, ast.Constant):
-            default_scale = node.value.value
-    if not isinstance(default_scale, int):
+    ok, base = fenv.try_const(pows[0][0])
+    if not ok or not isinstance(base, int) or isinstance(base, bool):
+        raise TranslateError("process_memory_address: `scale = <const> ** int(...)` not found")
+    r["scale_base"] = base
+    # the test that guards it: <shift_op>.lower() in <constant collection of strings>
+    cands = []
+    guards = []     # conditional expressions `<pow> if <test> else <default>`
+    for st in ast.walk(pm):
+        if isinstance(st, ast.IfExp) and any(x is pows[0][1] for x in ast.walk(st.body)):
+            guards.append(st)
+        elif not (isinstance(st, ast.If) and any(x is pows[0][1] for b in st.body for x in ast.walk(b))):
+            continue
+        for n in _through(st.test, fenv):
+            if isinstance(n, ast.Compare) and len(n.ops) == 1 and isinstance(n.ops[0], (ast.In, ast.NotIn)):
+                ok, v = fenv.try_const(n.comparators[0])
+                if ok and isinstance(v, (list, tuple, set, frozenset)) and v and all(isinstance(x, str) for x in v):
+                    cands.append((n, sorted(v) if isinstance(v, (set, frozenset)) else list(v)))
+    if len(cands) != 1:
+        raise TranslateError("process_memory_address: list of scaling shift ops not found")
+    test, r["valid"] = cands[0]
+    if not any(isinstance(x, ast.Attribute) and x.attr == "lower" for x in ast.walk(test.left)) \
+            or isinstance(test.ops[0], ast.NotIn):
+        raise TranslateError("process_memory_address: scaling shift op is not tested as `<op>.lower() in <list>`")
+    # the variable handed to MemoryOperand(scale=...): its constant (default) assignment
+    ctor = only([n for n in ast.walk(pm) if U.is_call(n, name="MemoryOperand")], "process_memory_address: MemoryOperand(...)")
+    sv = only([k.value for k in ctor.keywords if k.arg == "scale"], "process_memory_address: MemoryOperand(scale=...)")
+    if not isinstance(sv, ast.Name):
         raise TranslateError("process_memory_address: default scale not found")
+    defaults, others = [], []
+    for g in guards:
+        ok, c = fenv.try_const(g.orelse)
+        if ok and isinstance(c, int) and not isinstance(c, bool):
+            defaults.append(c)
+        else:
+            raise TranslateError("process_memory_address: default scale not found")
+    for v in fenv.assigns.get(sv.id, []):
+        ok, c = fenv.try_const(v) if v is not None else (False, None)
+        if ok and isinstance(c, int) and not isinstance(c, bool):
+            defaults.append(c)
+        else:
+            others.append(v)
+    if len(set(defaults)) != 1 or len(others) != 1 or others[0] is None or not any(x is pows[0][1] for x in ast.walk(others[0])):
+        raise TranslateError("process_memory_address: default scale not found")
+    r["default_scale"] = defaults[0]
     # if <x> is not None and "name" in <x> and <x>["name"].lower() == "<alias>": <x>["prefix"] = "<p>"
+    ifs = []
+    _unrolled_ifs(U.body_without_docstring(pm), fenv, {}, {}, ifs)
     forced = []
-    for node in ast.walk(pm):
-        if isinstance(node, ast.If) and len(node.body) == 1 and isinstance(node.body[0], ast.Assign):
-            a = node.body[0]
-            tg = a.targets[0]
-            if isinstance(tg, ast.Subscript) and isinstance(tg.value, ast.Name) and isinstance(a.value, ast.Constant) \
-                    and isinstance(tg.slice, ast.Constant) and tg.slice.value == "prefix":
-                consts = [n.value for n in ast.walk(node.test) if isinstance(n, ast.Constant) and isinstance(n.value, str)
-                          and n.value not in ("name",)]
-                lowered = any(isinstance(n, ast.Attribute) and n.attr == "lower" for n in ast.walk(node.test))
-                if len(consts) != 1 or not lowered:
+    for node, b, al in ifs:
+        if len(node.body) != 1 or not isinstance(node.body[0], ast.Assign) or len(node.body[0].targets) != 1:
+            continue
+        a = node.body[0]
+        tg = a.targets[0]
+        if not (isinstance(tg, ast.Subscript) and isinstance(tg.value, ast.Name)):
+            continue
+        ok, key = fenv.try_const(tg.slice, b)
+        if not ok or key != "prefix":
+            continue
+        ok, val = fenv.try_const(a.value, b)
+        if not ok or not isinstance(val, str):
+            raise TranslateError("process_memory_address: forced prefix at line %d is not a constant" % node.lineno)
+        var = tg.value.id
+        names = []
+        conj = node.test.values if isinstance(node.test, ast.BoolOp) and isinstance(node.test.op, ast.And) else [node.test]
+        for c in conj:
+            if isinstance(c, ast.Name) and c.id == var:
+                continue        # `x and ...` for `x is not None and ...` (an empty dict has no "name" either)
+            if not (isinstance(c, ast.Compare) and len(c.ops) == 1):
+                raise TranslateError("process_memory_address: unexpected alias test at line %d" % node.lineno)
+            l, op, rr = c.left, c.ops[0], c.comparators[0]
+            if isinstance(op, (ast.Is, ast.IsNot)):
+                if not (isinstance(op, ast.IsNot) and isinstance(l, ast.Name) and l.id == var
+                        and isinstance(rr, ast.Constant) and rr.value is None):
                     raise TranslateError("process_memory_address: unexpected alias test at line %d" % node.lineno)
-                forced.append((tg.value.id, consts[0], a.value.value))
+                continue
+            okl, vl = fenv.try_const(l, b)
+            if isinstance(op, ast.In) and okl and vl == "name" and isinstance(rr, ast.Name) and rr.id == var:
+                continue
+            # <var>["name"].lower() == C   |   C == <var>["name"].lower()   |   <var>["name"].lower() in (C1, C2)
+            sides = [(l, rr)] + ([(rr, l)] if isinstance(op, ast.Eq) else [])
+            hit = False
+            for s, o in sides:
+                s = fenv.resolve(s)
+                if not (U.is_call(s, "lower") and not s.args):
+                    continue
+                subj = fenv.resolve(s.func.value)
+                by_index = isinstance(subj, ast.Subscript) and isinstance(subj.value, ast.Name) and subj.value.id == var \
+                    and fenv.try_const(subj.slice, b) == (True, "name")
+                by_get = U.is_call(subj, "get") and isinstance(subj.func.value, ast.Name) and subj.func.value.id == var \
+                    and len(subj.args) == 2 and fenv.try_const(subj.args[0], b) == (True, "name") \
+                    and fenv.try_const(subj.args[1], b) == (True, "")
+                if by_index or by_get:
+                    okc, cv = fenv.try_const(o, b)
+                    if okc and isinstance(op, ast.Eq) and isinstance(cv, str):
+                        names.append(cv)
+                        hit = True
+                    elif okc and isinstance(op, ast.In) and isinstance(cv, (list, tuple, set, frozenset)) \
+                            and all(isinstance(x, str) for x in cv):
+                        names += sorted(cv)
+                        hit = True
+                    break
+            if not hit:
+                raise TranslateError("process_memory_address: unexpected alias test at line %d" % node.lineno)
+        if not names:
+            raise TranslateError("process_memory_address: unexpected alias test at line %d" % node.lineno)
+        real = al.get(var, var)
+        who = _role(fenv, real, param) or real
+        forced += [(who, n, val) for n in names]
     who = sorted(set(w for w, _, _ in forced))
     if who != ["base", "index"]:
         raise TranslateError("process_memory_address: alias prefix forcing for %r" % who)
@@ -295,103 +529,132 @@ def gen_a64grammar():
     fi = sorted((n, p) for w, n, p in forced if w == "index")
     if fb != fi:
         raise TranslateError("process_memory_address: base/index alias handling differs: %r %r" % (fb, fi))
+    if len(set(n for n, _ in fb)) != len(fb):
+        raise TranslateError("process_memory_address: an alias is forced twice: %r" % fb)
+    r["forced"] = fb
     # int(<...>["value"], 0) for offset and post-index
     bases = []
     for node in ast.walk(pm):
-        if isinstance(node, ast.Call) and isinstance(node.func, ast.Name) and node.func.id == "int":
-            bases.append(node.args[1].value if len(node.args) > 1 and isinstance(node.args[1], ast.Constant) else 10)
+        if U.is_call(node, name="int"):
+            bnode = node.args[1] if len(node.args) > 1 else None
+            for k in node.keywords:
+                if k.arg == "base":
+                    bnode = k.value
+            if bnode is None:
+                bases.append(10)
+            else:
+                ok, v = fenv.try_const(bnode)
+                if not ok or not isinstance(v, int):
+                    raise TranslateError("process_memory_address: int() base at line %d is not a constant" % node.lineno)
+                bases.append(v)
     if sorted(bases) != [0, 0, 10]:
         raise TranslateError("process_memory_address: int() bases %r, model expects offset/post base 0, shift base 10" % bases)
+    return r
 
-    # sp as a plain operand
-    po_ = find_func(tree, "process_operand", "ParserAArch64")
-    sp_names = [n.value for n in ast.walk(po_) if isinstance(n, ast.Constant) and isinstance(n.value, str)
-                and n.value not in ("list", "range", "name") and n.value != ast.get_docstring(po_, clean=False)]
-    if sp_names != ["sp"]:
-        raise TranslateError("process_operand: expected exactly the 'sp' special case, got %r" % sp_names)
-    ps = find_func(tree, "process_sp_register", "ParserAArch64")
+
+@generator("A64Grammar", [SRC, BASE])
+def gen_a64grammar():
+    tree = parse(SRC)
+    tb = parse(BASE)
+    cls = U.class_node(tree, "ParserAArch64")
+    bcls = U.class_node(tb, "BaseParser")
+    it = U.construct(tree, [cls, bcls])
+    g = read_grammar(it)
+    interp = U.Interp(tree, [cls, bcls])
+
+    m = read_memory(U.method(cls, "process_memory_address"), interp)
+
+    # sp as a plain operand: `<register>["name"].lower() == "sp"` selects process_sp_register
+    po_ = U.method(cls, "process_operand")
+    fenv = U.FnEnv(po_, interp)
+    sp_names = []
+    for n in ast.walk(po_):
+        if isinstance(n, ast.Compare) and len(n.ops) == 1 and isinstance(n.ops[0], (ast.Eq, ast.In)):
+            for s, o in ((n.left, n.comparators[0]), (n.comparators[0], n.left)):
+                if U.is_call(fenv.resolve(s), "lower"):
+                    ok, v = fenv.try_const(o)
+                    if ok and isinstance(v, str) and isinstance(n.ops[0], ast.Eq):
+                        sp_names.append(v)
+                    elif ok and isinstance(v, (list, tuple, set, frozenset)) and s is n.left:
+                        sp_names += sorted(v)
+    stray = [v for v in U.const_strings(po_, fenv) if v not in ("list", "range", "name") and v not in sp_names]
+    if len(sp_names) != 1 or stray:
+        raise TranslateError("process_operand: expected exactly the 'sp' special case, got %r" % (sp_names + stray))
+    ps = U.method(cls, "process_sp_register")
+    fenv = U.FnEnv(ps, interp)
     kw = {}
     for c in ast.walk(ps):
         if isinstance(c, ast.Call):
             for k in c.keywords:
-                if isinstance(k.value, ast.Constant):
-                    kw[k.arg] = k.value.value
-    if set(kw) != {"prefix", "name"}:
+                ok, v = fenv.try_const(k.value)
+                if ok and k.arg is not None:
+                    kw[k.arg] = v
+    if set(kw) != {"prefix", "name"} or not all(isinstance(v, str) for v in kw.values()):
         raise TranslateError("process_sp_register: RegisterOperand(prefix=.., name=..) expected")
 
     # parse_file: i + <c> + start_line ; split("\n") ; strip() == ""
-    tb = parse("osaca/parser/base_parser.py")
-    pf_ = find_func(tb, "parse_file", "BaseParser")
-    line_base = None
-    for node in ast.walk(pf_):
-        if isinstance(node, ast.BinOp) and isinstance(node.op, ast.Add) and isinstance(node.left, ast.BinOp) \
-                and isinstance(node.left.op, ast.Add) and isinstance(node.left.left, ast.Name) \
-                and isinstance(node.left.right, ast.Constant) and isinstance(node.right, ast.Name):
-            line_base = node.left.right.value
-    if not isinstance(line_base, int):
-        raise TranslateError("parse_file: `i + <const> + start_line` not found")
-    seps = [_strarg(c, "split") for c in ast.walk(pf_) if isinstance(c, ast.Call) and isinstance(c.func, ast.Attribute)
-            and c.func.attr == "split"]
-    if seps != ["\n"]:
-        raise TranslateError("parse_file: split separator %r" % seps)
-    conts = [n for n in ast.walk(pf_) if isinstance(n, ast.Continue)]
-    strips = [n for n in ast.walk(pf_) if isinstance(n, ast.Attribute) and n.attr == "strip"]
-    if len(conts) != 1 or len(strips) != 1:
+    pf = U.read_parse_file(U.method(bcls, "parse_file"), U.Interp(tb, [bcls]))
+    if pf["sep"] != "\n":
+        raise TranslateError("parse_file: split separator %r" % pf["sep"])
+    if pf["blank"] != "strip" or not pf["line_is_element"] or pf["enum_start"] != 0:
         raise TranslateError("parse_file: blank-line skip changed")
+    if pf["terms"] != ["i", "start_line"] or pf["const"] < 0:
+        raise TranslateError("parse_file: `i + <const> + start_line` not found")
+    line_base = pf["const"]
 
     # process_immediate: `<<` of base by int(shift)
-    pi = find_func(tree, "process_immediate", "ParserAArch64")
+    pi = U.method(cls, "process_immediate")
     if len([n for n in ast.walk(pi) if isinstance(n, ast.BinOp) and isinstance(n.op, ast.LShift)]) != 1:
         raise TranslateError("process_immediate: shifted immediate is no longer `base << shift`")
     # resolve_range_list: range(int(a), int(b) + 1)
-    rr = find_func(tree, "resolve_range_list", "ParserAArch64")
-    incl = None
-    for c in ast.walk(rr):
-        if isinstance(c, ast.Call) and isinstance(c.func, ast.Name) and c.func.id == "range" and len(c.args) == 2:
-            hi = c.args[1]
-            if isinstance(hi, ast.BinOp) and isinstance(hi.op, ast.Add) and isinstance(hi.right, ast.Constant):
-                incl = hi.right.value
-            elif isinstance(hi, ast.Call):
-                incl = 0
-    if not isinstance(incl, int):
+    rr = U.method(cls, "resolve_range_list")
+    fenv = U.FnEnv(rr, interp)
+    ranges = [c for c in ast.walk(rr) if U.is_call(c, name="range") and len(c.args) == 2 and not c.keywords]
+    if len(ranges) != 1:
+        raise TranslateError("resolve_range_list: range(int(start), int(end) + c) not found")
+    terms, incl = U.linear(ranges[0].args[1], fenv)
+    lo_terms, lo_c = U.linear(ranges[0].args[0], fenv)
+    if len(terms) != 1 or list(terms.values()) != [1] or not list(terms)[0].startswith("int(") or incl < 0 \
+            or lo_c != 0 or len(lo_terms) != 1 or list(lo_terms.values()) != [1] or not list(lo_terms)[0].startswith("int("):
         raise TranslateError("resolve_range_list: range(int(start), int(end) + c) not found")
 
+    vec_prefixes, pred_chars = g["vec_prefixes"], g["pred_chars"]
     out = [HEADER, "namespace OsacaVerif.Gen.A64\n"]
     def d(name, ty, val, doc):
         out.append("/-- %s -/\ndef %s : %s := %s\n" % (doc, name, ty, val))
-    d("commentSym", "List Nat", txt(comment_sym), "`symbol_comment`")
-    d("immSym", "List Nat", txt(imm_sym), "`symbol_immediate`")
-    d("shiftOps", "List (List Nat)", txt_list([s.lower() for s in shift_ops]),
-      "alternatives of `shift_op` (CaselessLiteral, lower-cased), in order: " + " ".join(repr(s) for s in shift_ops))
-    d("validShiftOps", "List (List Nat)", txt_list(valid), "`valid_shift_ops` of process_memory_address: " + " ".join(valid))
-    d("scaleBase", "Nat", str(scale_base), "base of `scale = b ** int(shift)`")
-    d("defaultScale", "Nat", str(default_scale), "scale of a memory operand without scaling shift")
-    d("conditions", "List (List Nat)", txt_list([c.upper() for c in conds]), "condition codes (as defined, upper case)")
-    d("scalarPrefixes", "List Nat", txt(scalar_prefixes), "`Word(..., exact=1)` of `scalar`")
+    d("commentSym", "List Nat", txt(g["comment_sym"]), "`symbol_comment`")
+    d("immSym", "List Nat", txt(g["imm_sym"]), "`symbol_immediate`")
+    d("shiftOps", "List (List Nat)", txt_list([s.lower() for s in g["shift_ops"]]),
+      "alternatives of `shift_op` (CaselessLiteral, lower-cased), in order: " + " ".join(repr(s) for s in g["shift_ops"]))
+    d("validShiftOps", "List (List Nat)", txt_list(m["valid"]), "`valid_shift_ops` of process_memory_address: " + " ".join(m["valid"]))
+    d("scaleBase", "Nat", str(m["scale_base"]), "base of `scale = b ** int(shift)`")
+    d("defaultScale", "Nat", str(m["default_scale"]), "scale of a memory operand without scaling shift")
+    d("conditions", "List (List Nat)", txt_list([c.upper() for c in g["conds"]]), "condition codes (as defined, upper case)")
+    d("scalarPrefixes", "List Nat", txt(g["scalar_prefixes"]), "`Word(..., exact=1)` of `scalar`")
     d("vectorPrefixes", "List Nat", txt("".join(vec_prefixes)), "`oneOf(..., caseless=True)` of `vector` (single letters)")
     if any(len(p) != 1 for p in vec_prefixes) or any(len(p) != 1 for p in pred_chars):
         raise TranslateError("oneOf alternatives are not single letters")
-    d("laneChars", "List Nat", txt(lane_chars), "lane digits")
-    d("predPrefix", "List Nat", txt(pcl[0].lower()), "predicate prefix")
+    d("laneChars", "List Nat", txt(g["lane_chars"]), "lane digits")
+    d("predPrefix", "List Nat", txt(g["pred_prefix"].lower()), "predicate prefix")
     d("predicationChars", "List Nat", txt("".join(pred_chars)), "predication letters")
-    d("aliasSp", "List (List Nat)", txt_list(aliases[0]), "names of alias_r31_sp")
-    d("aliasZr", "List (List Nat)", txt_list(aliases[1]), "names of alias_r31_zr")
+    d("aliasSp", "List (List Nat)", txt_list(g["aliases"][0]), "names of alias_r31_sp")
+    d("aliasZr", "List (List Nat)", txt_list(g["aliases"][1]), "names of alias_r31_zr")
     d("memAliasForced", "List (List Nat × List Nat)",
-      "[" + ", ".join("(%s, %s)" % (txt(n), txt(p)) for n, p in fb) + "]",
+      "[" + ", ".join("(%s, %s)" % (txt(n), txt(p)) for n, p in m["forced"]) + "]",
       "memory base/index: lower-cased name -> forced prefix")
     d("spOperandName", "List Nat", txt(sp_names[0]), "process_operand: name.lower() that selects process_sp_register")
     d("spOperandPrefix", "List Nat", txt(kw["prefix"]), "process_sp_register prefix")
     d("spOperandResult", "List Nat", txt(kw["name"]), "process_sp_register name")
-    d("prfTypes", "List (List Nat)", txt_list([x.upper() for x in pf_lists[0]]), "prefetch types")
-    d("prfTargets", "List (List Nat)", txt_list([x.upper() for x in pf_lists[1]]), "prefetch targets")
-    d("prfPolicies", "List (List Nat)", txt_list([x.upper() for x in pf_lists[2]]), "prefetch policies")
-    d("mnemonicExtra", "List Nat", txt(mn_extra), "mnemonic = Word(alphanums + this)")
-    d("identFirstExtra", "List Nat", txt(first[1]), "identifier first = alphas + this")
-    d("identRestExtra", "List Nat", txt(rest[1]), "identifier rest = alphanums + this")
-    d("relocExtra", "List Nat", txt(rw[1]), "relocation = alphanums + this")
-    d("wordEndExtra", "List Nat", txt(we_extra), "WordEnd(alphanums + this) after a condition code / prefetch operation")
-    d("hexPrefix", "List Nat", txt(hex_prefix), "hex_number prefix literal")
-    d("operandSlots", "Nat", str(n_slots), "operand1 .. operandN of instruction_parser")
+    d("prfTypes", "List (List Nat)", txt_list([x.upper() for x in g["pf_lists"][0]]), "prefetch types")
+    d("prfTargets", "List (List Nat)", txt_list([x.upper() for x in g["pf_lists"][1]]), "prefetch targets")
+    d("prfPolicies", "List (List Nat)", txt_list([x.upper() for x in g["pf_lists"][2]]), "prefetch policies")
+    d("mnemonicExtra", "List Nat", txt(g["mn_extra"]), "mnemonic = Word(alphanums + this)")
+    d("identFirstExtra", "List Nat", txt(g["first_extra"]), "identifier first = alphas + this")
+    d("identRestExtra", "List Nat", txt(g["rest_extra"]), "identifier rest = alphanums + this")
+    d("relocExtra", "List Nat", txt(g["reloc_extra"]), "relocation = alphanums + this")
+    d("wordEndExtra", "List Nat", txt(g["we_extra"]), "WordEnd(alphanums + this) after a condition code / prefetch operation")
+    d("hexPrefix", "List Nat", txt(g["hex_prefix"]), "hex_number prefix literal")
+    d("operandSlots", "Nat", str(g["n_slots"]), "operand1 .. operandN of instruction_parser")
     d("lineBase", "Nat", str(line_base), "parse_file: line number = index + this + start_line")
     d("rangeInclusive", "Nat", str(incl), "resolve_range_list: range(int(a), int(b) + this)")
     out.append("end OsacaVerif.Gen.A64\n")
